@@ -19,7 +19,8 @@ EXTENDS Integers, Sequences, FiniteSets, TLC
 \* twofiles: two converters of one package, each with its own output file in that package
 Layouts == {"separate", "same", "shared", "tie", "twofiles"}
 \* multi: several build tags, the complementary one not last (-build-tags vtag,other -output-constraint !vtag)
-TagCfgs == {"default", "custom", "multi"}
+\* envtag: -build-tags "" with the tag supplied through GOFLAGS; the output constraint !goverter is still configured
+TagCfgs == {"default", "custom", "multi", "envtag"}
 \* unknown2 / enumkeys2: two simultaneous faults of the same kind in one method (which one is reported must not vary)
 \* marker: a valid converter followed by a marker on a struct (fails while extracting converters)
 \* format: a converter whose output cannot be formatted (name "Bad-Impl"), in an output file of its own
